@@ -255,6 +255,8 @@ fn val_strategy_d(u: &Universe, t: &Ty, cfg: GenCfg, depth: usize) -> BoxedStrat
         Ty::String | Ty::BoxStr => string_strategy(sub),
         Ty::Vec(e) | Ty::BoxSlice(e) => {
             let es = rec(e);
+            // items of hundreds of components: a few of them are enough
+            let sub = if matches!(&**e, Ty::Array(..)) && e.array_len() >= 256 { GenCfg { max_len: sub.max_len.min(5), long: false } } else { sub };
             len_strategy(sub).prop_flat_map(move |n| prop::collection::vec(es.clone(), n..=n)).prop_map(Val::Seq).boxed()
         }
         Ty::Array(e, _) => {
